@@ -407,3 +407,15 @@ Proof.
     right. exists c. split; [exact Hc|]. rewrite andb_true_iff, !memb_In, !Hdp.
     split; right; apply parents_In; tauto.
 Qed.
+
+(* the hypotheses of moral_adjacency are satisfiable on a non-trivial input: 0 -> 2 <- 1 marries 0 and 1,
+   which are not adjacent, through the collider path 0 -> 2 <- 1 *)
+Example moral_adjacency_example :
+  let g := MkG [0; 1; 2] [(0, 2); (1, 2)] [] [] [] in
+  wf g /\ moral_adj g 0 1 = true /\ skel_adj g 0 1 = false /\ collider_path g 0 [(Fwd, 2); (Bwd, 1)] 1.
+Proof.
+  split; [reflexivity|]. split; [reflexivity|]. split; [reflexivity|].
+  split; [discriminate|]. split; [simpl; intuition|]. split.
+  - unfold nodes_of. simpl. repeat constructor; simpl; intuition; discriminate.
+  - split; [reflexivity|]. simpl. auto.
+Qed.
